@@ -1,6 +1,7 @@
 package main
 
 import (
+	"context"
 	"fmt"
 	"os"
 	"path/filepath"
@@ -811,6 +812,40 @@ func (v *Verifier) execBlock(b *ssa.BasicBlock, pred *ssa.BasicBlock, st *State)
 			s2 := st.clone()
 			st.assume(c.T)
 			s2.assume(not(c.T))
+			if v.contract != nil && len(v.contract.AssumeDead) > 0 {
+				// a branch the contract assumes dead (a listed assumption about control flow)
+				dead := func(blk *ssa.BasicBlock) string {
+					for _, in := range blk.Instrs {
+						if in.Pos().IsValid() {
+							p := v.prog.ssaProg.Fset.Position(in.Pos())
+							k := fmt.Sprintf("%s:%d", filepath.Base(p.Filename), p.Line)
+							if lbl, ok := v.contract.AssumeDead[k]; ok {
+								return k + " " + lbl
+							}
+							return ""
+						}
+					}
+					return ""
+				}
+				d0, d1 := dead(b.Succs[0]), dead(b.Succs[1])
+				if d0 != "" || d1 != "" {
+					if d0 != "" {
+						v.noteOnce("assume branch at " + d0 + " is never taken (assumedead)")
+						st = nil
+					}
+					if d1 != "" {
+						v.noteOnce("assume branch at " + d1 + " is never taken (assumedead)")
+						s2 = nil
+					}
+					if st != nil {
+						v.execBlock(b.Succs[0], b, st)
+					}
+					if s2 != nil {
+						v.execBlock(b.Succs[1], b, s2)
+					}
+					return
+				}
+			}
 			if v.contract != nil && v.contract.Prune {
 				if v.infeasible(st) {
 					v.notes = append(v.notes, fmt.Sprintf("branch in block %d (%s) on %s at %s: true side proved infeasible and skipped", b.Index, b.Comment, x.Cond.Name(), v.posOf(x)))
@@ -861,10 +896,12 @@ func (v *Verifier) infeasible(st *State) bool {
 	os.MkdirAll(dir, 0o755)
 	v.pruneN++
 	file := filepath.Join(dir, fmt.Sprintf("%s_%d.smt2", safeName(v.key), v.pruneN))
-	text := v.env.ctx.render(st.pc, "false", false, st.cands, st.lens, false)
-	os.WriteFile(file, []byte(text), 0o644)
-	r := solve(file, 3)
-	return r.Status == "unsat"
+	// ground phase first (quantified hypotheses replaced by their instances), then the full query
+	lite := v.env.ctx.render(st.pc, "false", false, st.cands, st.lens, true)
+	lfile := strings.TrimSuffix(file, ".smt2") + ".lite.smt2"
+	os.WriteFile(lfile, []byte(lite), 0o644)
+	stt, _, _ := runSolver(context.Background(), solvers[0], lfile, 6)
+	return stt == "unsat"
 }
 
 // nameReg replaces a large register term by a fresh constant defined equal to it.
@@ -891,6 +928,15 @@ func (v *Verifier) nameVal(st *State, hint string, val Value) Value {
 	st.assume(eq(c, val.T))
 	val.T = c
 	return val
+}
+
+func (v *Verifier) noteOnce(n string) {
+	for _, x := range v.notes {
+		if x == n {
+			return
+		}
+	}
+	v.notes = append(v.notes, n)
 }
 
 func (v *Verifier) panicAllowed(kind string) bool {
